@@ -273,23 +273,6 @@ void uninitialized_shift_left(T *first, SizeType n) noexcept {
   amc::uninitialized_relocate_n(first, n, first - 1);
 }
 
-/// Construct at 'pos' the T from 'args' parameters, shifting 'n' elements starting at 'pos' to the right
-template <class T, class SizeType, class... Args>
-inline void emplace_n(T *pos, SizeType n, Args &&...args) {
-  if (n == 0) {
-    amc::construct_at(pos, std::forward<Args>(args)...);
-  } else {
-    shift_right(pos, n);
-    destroy_after_shift(pos);
-    try {
-      amc::construct_at(pos, std::forward<Args>(args)...);
-    } catch (...) {
-      uninitialized_shift_left(pos + 1, n);
-      throw;
-    }
-  }
-}
-
 template <class T, class V, typename std::enable_if<!amc::is_trivially_relocatable<T>::value, bool>::type = true>
 inline void assign_after_shift(T *pos, V &&v) {
   *pos = std::forward<V>(v);
@@ -334,6 +317,26 @@ class ElemStorage {
  private:
   alignas(T) std::uint8_t _el[sizeof(T)];
 };
+
+/// Construct at 'pos' the T from 'args' parameters, shifting 'n' elements starting at 'pos' to the right
+template <class T, class SizeType, class... Args>
+inline void emplace_n(T *pos, SizeType n, Args &&...args) {
+  if (n == 0) {
+    amc::construct_at(pos, std::forward<Args>(args)...);
+  } else {
+    // construct first: 'args' may refer to one of the elements that are about to be shifted
+    ElemStorage<T> e;
+    amc::construct_at(e.ptr(), std::forward<Args>(args)...);
+    shift_right(pos, n);
+    try {
+      relocate_after_shift(e.ptr(), pos);
+    } catch (...) {
+      shift_left(pos + 1, n);
+      amc::destroy_at(e.ptr());
+      throw;
+    }
+  }
+}
 
 /// This class represents a merge of a pointer and some inline storage elements.
 /// Thanks to this optimization, SmallVector behaves like a string type with SSO
@@ -1251,7 +1254,11 @@ class VectorImpl : public VectorDestr<T, Alloc, SizeType, WithInlineElements, Gr
     assert(position >= this->cbegin() && position <= cend());
     const_reference newV = this->adjustCapacity(static_cast<uintmax_t>(this->size()) + 1U, v, &position);
     iterator pos = const_cast<iterator>(position);
-    insert_n(pos, this->size() - (pos - this->begin()), newV);
+    const T *pV = std::addressof(newV);
+    if (pV >= pos && pV < end()) {
+      ++pV;  // 'v' is one of the elements that are about to be shifted
+    }
+    insert_n(pos, this->size() - (pos - this->begin()), *pV);
     this->incrSize();
     return pos;
   }
@@ -1274,8 +1281,12 @@ class VectorImpl : public VectorDestr<T, Alloc, SizeType, WithInlineElements, Gr
       if (nElemsToShift == 0) {
         std::uninitialized_fill_n(pos, count, newV);
       } else {
+        const T *pV = std::addressof(newV);
+        if (pV >= pos && pV < pos + nElemsToShift) {
+          pV += count;  // 'v' is one of the elements that are about to be shifted
+        }
         shift_right(pos, nElemsToShift, count);
-        fill_after_shift(pos, nElemsToShift, count, newV);
+        fill_after_shift(pos, nElemsToShift, count, *pV);
       }
       this->setSize(this->size() + count);
     } else {
